@@ -608,6 +608,7 @@ def run(tier: str, only=None) -> core.Result:
             continue
         out = explorer.explore(RUN, cfgs, fidelity=True)
         sched.absorb(res, name, RUN, out, cfgs)
+        sched.debug_pass(res, name, RUN, cfgs, every=7)
     pcfgs = []
     for k in (2, 3):
         for combo in itertools.product(range(len(PIPE_BEHS)), repeat=k):
